@@ -273,6 +273,32 @@ def run(ctx):
                 o.undecided(f"acceptance ratio {tm.show(ratio)} not recognised", sw, r)
         if not trues:
             o.violated(sw, sw.node, "swap_condition never accepts")
+        # the acceptance must be reachable with a NON-zero numerator: a path condition `top == 0` on the way to `return True`
+        # means swaps are accepted only when they cannot be (ratio 0) - the chain never moves
+        for r in trues:
+            for t_, p_ in rules.known_facts(spar, r):
+                c_ = rules.compare_with_pivot(t_, lambda x: txt(x) == top, negated=not p_)
+                if c_ is not None and c_[0] == "==" and astx.const_value(c_[1]) == 0:
+                    o.violated(sw, spar.stmt_of(t_), f"`{txt(r)}` is only reached when `{top} == 0`, where the ratio is 0 and the draw can never be below it: no swap is ever accepted "
+                                                     "(the network cannot approach the target)")
+        # early exits on the running numerator inside its loop: only `== 0` may reject
+        for i_ in [x for x in ast.walk(lp) if isinstance(x, ast.If)]:
+            c_ = rules.compare_with_pivot(i_.test, lambda x: txt(x) == top)
+            rejects = any(isinstance(x, ast.Return) and isinstance(x.value, ast.Constant) and x.value.value is False for s_ in i_.body for x in ast.walk(s_))
+            if c_ is not None and astx.const_value(c_[1]) == 0 and rejects and c_[0] in ("!=", ">"):
+                o.violated(sw, i_, f"the trial is rejected as soon as the running product `{top}` is NON-zero (`{txt(i_.test)}`): only zero-weight proposals survive to the acceptance test, "
+                                   "where their ratio 0 is never accepted - no swap ever happens")
+        # the two products start at 1
+        for acc_aug, what in ((aug, "numerator"),) + tuple((a_, "denominator") for a_ in ast.walk(sw.node) if isinstance(a_, ast.AugAssign) and isinstance(a_.op, ast.Mult) and a_ is not aug and isinstance(a_.target, ast.Name)):
+            nm_ = txt(acc_aug.target)
+            inits = [s_ for s_ in ssc.assigns.get(nm_, []) if isinstance(s_, ast.Assign)]
+            if len(inits) == 1:
+                v0 = astx.const_value(inits[0].value)
+                if v0 is not None and v0 != 1:
+                    o.violated(sw, inits[0], f"the {what} product `{nm_}` starts at {v0!r}, not at 1: " + ("it is 0 whatever the weights are, so no swap is ever accepted" if v0 == 0 and what == "numerator"
+                               else ("it is 0 whatever the weights are (division by zero / every trial raises)" if v0 == 0 else "the Metropolis ratio is scaled by a constant: the chain no longer targets the given matrices")))
+                elif v0 == 1:
+                    o.holds(sw, inits[0], f"the {what} product starts at 1")
         # (c) no write to _proposal_edges between swap_condition and the application loop in rewire
         rsc = Scope(rw.node)
         writes = [n for n in astx.walk_fn(rw.node) if isinstance(n, (ast.Assign, ast.AugAssign)) and any(astx.self_attr(t) == "_proposal_edges" for t in (n.targets if isinstance(n, ast.Assign) else [n.target]))]
